@@ -104,6 +104,23 @@ def eval_case(case: dict) -> dict:
         second = str(com)
         if second != first:
             viol('render-not-idempotent', first=first[:120], second=second[:120])
+        # the comment handed on as an object: in a list of contents, as the content of a chunk
+        # with every kind of appendix - the library composes file headers that way
+        rendered = first.split('\n')[:-1] if first else []
+        pours = [('in-list', lambda: text_gen.TextBlock([com])),
+                 ('chunk', lambda: text_gen.chunk(com)),
+                 ('chunk-no-appendix', lambda: text_gen.chunk(com, None)),
+                 ('chunk-empty-appendix', lambda: text_gen.chunk(com, '')),
+                 ('chunk-text-appendix', lambda: text_gen.chunk(com, 'int x;')),
+                 ('cond_chunk', lambda: text_gen.cond_chunk(None, com, None, None))]
+        how_pour, pour = pours[len(lines) % len(pours)]
+        if any(ln.strip() for ln in lines):
+            block = pour()
+            cnt[f'poured_{how_pour}'] = 1
+            got = [] if block is None else block.lines
+            if got[:len(rendered)] != rendered:
+                viol(f'comment-poured-into-{how_pour}-loses-its-rendering', rendered=rendered[:6],
+                     got=got[:6])
         if case.get('extend') is not None:
             ehow = case.get('extend_how', 'append')
             more = lines + T.ref_lines(case['extend'])
@@ -245,6 +262,7 @@ def main(tier: str) -> int:
     run.require('comments_rendered', 'comment_lines_judged', 'filled_via_iadd', 'filled_via_append', 'with_unusual_separators',
                 'extended_after_render', 'changed_after_render_via_lines-list',
                 'changed_after_render_via_lines-setter', 'changed_after_render_via_trim',
+                'poured_chunk-no-appendix', 'poured_in-list', 'poured_cond_chunk',
                 'build_pairs', 'files_compared',
                 'lexer_residues_compared')
     for _item, res in run.pmap(_worker, [(run.seed, i, per) for i in range(total // per)]):
